@@ -9,7 +9,7 @@ Correspondence (model CC/Model/MultiFreq.lean vs the real code):
     inactive source by a short / an open circuit) against the model's gates (op `active_index`);
   * time functions of `TimeDomainSolution` at sample instants against the model's
     `timeValue` fed with the implementation's own spectral lines (op `time_value`);
-  * `FrequencyDomainSolution(one_sided=False)` against `twoSidedAsWritten` (op `two_sided`).
+  * `FrequencyDomainSolution(one_sided=False)` against the model's `series` (op `two_sided`).
 
 Oracle on the implementation (decides the property):
   * the listed frequencies are strictly increasing, contain every source frequency and every
@@ -36,10 +36,9 @@ THEOREMS = [
     'CC.C09_freqs_sorted', 'CC.C09_freqs_mem', 'CC.C09_once_counterexample', 'CC.C09_once_partial',
     'CC.C09_line', 'CC.C09_time_function', 'CC.C09_time_value', 'CC.C09_kcl_instant',
     'CC.C09_superpose_sources', 'CC.C09_source_reconstruction',
-    'CC.C09_two_sided_mirror', 'CC.C09_two_sided_dc_counterexample', 'CC.C09_two_sided_as_written_counterexample',
+    'CC.C09_two_sided', 'CC.C09_two_sided_dc', 'CC.C09_two_sided_lines',
 ]
-OPEN_STATEMENTS = ['CC.C09_once_statement (false: C09_once_counterexample)',
-                   'CC.C09_two_sided_statement (false: C09_two_sided_as_written_counterexample)']
+OPEN_STATEMENTS = ['CC.C09_once_statement (false after fix 6e56e9e for chains of frequencies: C09_once_counterexample)']
 ASSUMPTIONS = [
     'cos, sin, abs, angle of numpy are parameters: the model evaluates a line from c = cos(w t), s = sin(w t) computed by numpy; C09_time_function proves |X|cos(wt + arg X) = X.re·c − X.im·s over the complex numbers',
     'the per-frequency networks are the implementation\'s own transform outputs (C02/C07), their solutions the solver\'s (C01)',
@@ -151,10 +150,32 @@ def exact_listed(comps, w_max):
             want.add(w)
     return sorted(want)
 
-def near_coincident(ws):
-    """two listed frequencies that differ but lie within the resolution of each other"""
-    ws = sorted(ws)
-    return any(0 < b - a <= W_RES for a, b in zip(ws, ws[1:]))
+def source_frequencies(comps, upto):
+    """the frequencies the sources contain (harmonics up to `upto`), as floats"""
+    S = set()
+    for c in comps:
+        if not is_source(c): continue
+        w = src_w(c)
+        if is_periodic(c):
+            if w <= 0: continue
+            k = 0
+            while k * w <= upto + W_RES and k < 10000:
+                S.add(k * w); k += 1
+        else:
+            S.add(w)
+    return sorted(S)
+
+def near_coincident(S):
+    """two source frequencies that differ but lie within the resolution of each other"""
+    return any(0 < b - a <= W_RES for a, b in zip(S, S[1:]))
+
+def chain_within_resolution(S):
+    """"within the resolution" is not transitive on the source frequencies: some frequency lies
+    within the resolution of two others that are farther apart than the resolution"""
+    for f in S:
+        near = [g for g in S if abs(g - f) <= W_RES]
+        if near and max(near) - min(near) > W_RES: return True
+    return False
 
 def lossy_other_frequency(comps, ws):
     """a source with internal resistance / conductance that is inactive at some listed frequency"""
@@ -176,7 +197,9 @@ def harmonic_beyond_wmax_listed(comps, ws, w_max):
     return False
 
 def facts(comps, ws):
-    return dict(near_coincident=bool(near_coincident(ws)), lossy_other_frequency=bool(lossy_other_frequency(comps, ws)))
+    S = source_frequencies(comps, max(ws) if ws else 0.0)
+    return dict(near_coincident=bool(near_coincident(S)), chain_within_resolution=bool(chain_within_resolution(S)),
+                lossy_other_frequency=bool(lossy_other_frequency(comps, ws)))
 
 # --------------------------------------------------------------------------- frequency list
 
@@ -203,7 +226,7 @@ def check_freqs(ctx, out, comps, w_max, exact):
     if tie:
         out.skip('tie_margin_floor'); return impl
     if drv is not None:
-        m = drv.call('freq_components', comps=[fcomp_json(c) for c in comps], wmax=core.q(float(w_max)))
+        m = drv.call('freq_components', comps=[fcomp_json(c) for c in comps], wmax=core.q(float(w_max)), wres=core.q(W_RES))
         out.traces_validated += 1
         if 'err' in m:
             if impl != ('err', m['err']): out.disagree('frequency_components', P, impl, m)
@@ -229,19 +252,26 @@ def check_freqs(ctx, out, comps, w_max, exact):
     if any(b <= a for a, b in zip(ws, ws[1:])):
         out.spec_fail(dict(op='frequency_components', symptom='not_strictly_increasing', **f), 'frequency list is not strictly increasing', P, impl=dict(w=ws), case=case)
         return impl
+    want = [float(x) for x in exact_listed(comps, w_max)]
     if exact:
-        want = [float(x) for x in exact_listed(comps, w_max)]
-        if want != ws:
-            miss = [w for w in want if w not in ws]; extra = [w for w in ws if w not in want]
+        extra = [w for w in ws if w not in want]
+        miss = [w for w in want if not any(abs(w - k) <= W_RES for k in ws)]
+        if extra or miss:
             out.spec_fail(dict(op='frequency_components', symptom='wrong_list', missing=bool(miss), extra=bool(extra), **f),
-                          f'frequency list differs from source frequencies ∪ harmonics ≤ w_max: missing {miss}, extra {extra}', P,
+                          f'frequency list vs source frequencies ∪ harmonics ≤ w_max: not represented {miss}, not a source frequency {extra}', P,
                           impl=dict(w=ws), spec=dict(w=want), case=case)
             return impl
-    if near_coincident(ws):
-        pair = next((a, b) for a, b in zip(ws, ws[1:]) if 0 < b - a <= W_RES)
+    close_pair = next(((a, b) for a, b in zip(ws, ws[1:]) if b - a <= W_RES), None)
+    if close_pair is not None:
         out.spec_fail(dict(op='frequency_components', symptom='frequency_listed_twice', **f),
-                      f'frequencies {pair[0]!r} and {pair[1]!r} lie within the resolution {W_RES} of each other but are analysed separately', P,
+                      f'frequencies {close_pair[0]!r} and {close_pair[1]!r} lie within the resolution {W_RES} of each other but are analysed separately', P,
                       impl=dict(w=ws), case=case)
+        return impl
+    twice = next((w for w in want if sum(1 for k in ws if abs(w - k) <= W_RES) > 1), None)
+    if twice is not None:
+        out.spec_fail(dict(op='frequency_components', symptom='source_frequency_in_two_windows', **f),
+                      f'source frequency {twice!r} lies within the resolution {W_RES} of two analysed frequencies '
+                      f'{[k for k in ws if abs(twice - k) <= W_RES]}: it is counted at both', P, impl=dict(w=ws), case=case)
     else:
         out.count('freqs_spec_ok')
     return impl
@@ -362,7 +392,7 @@ def check_kcl(ctx, out, comps, w_max, td, ws, scale, rng):
         sign = -1.0 if (is_source(c) and is_lossy(c)) else 1.0
         cur[c['id']] = [sign * float(fn(t)) for t in ts]
     iscale = max([1.0] + [abs(x) for v in cur.values() for x in v])
-    out.nontrivial(('kcl', len(comps), len(ws), f['near_coincident'], f['lossy_other_frequency']))
+    out.nontrivial(('kcl', len(comps), len(ws), f['near_coincident'], f['chain_within_resolution'], f['lossy_other_frequency']))
     for n in nodes:
         for k, t in enumerate(ts):
             s = 0.0
@@ -409,16 +439,22 @@ def check_superposition(ctx, out, comps, w_max, td, ws, scale, rng):
         except Exception as e:
             out.count('single_source_error:' + tag(e)); return
     ts = [0.0] + [rng.uniform(0, 20) for _ in range(3)]
+    tol = 1e-8
+    if f['near_coincident']:
+        # sources within the resolution are analysed at one common frequency: their own frequency is
+        # replaced by one at most w_resolution away, which shifts cos(w t + φ) by up to w_resolution·t —
+        # compare at t = 0 only, where only the (tiny) frequency dependence of the impedances remains
+        ts = [0.0]; tol = 1e-3
     passive = [c['id'] for c in comps if not is_source(c) and c['kind'] != 'gnd']
     _, nodes = quantities(comps)
-    out.nontrivial(('superpose', len(srcs), len(ws), f['near_coincident'], f['lossy_other_frequency']))
+    out.nontrivial(('superpose', len(srcs), len(ws), f['near_coincident'], f['chain_within_resolution'], f['lossy_other_frequency']))
     for kind, names in (('voltage', passive), ('current', passive), ('potential', nodes)):
         for name in names:
             full = getattr(td, 'get_' + kind)(name)
             parts = [getattr(t1, 'get_' + kind)(name) for _, t1 in singles]
             for t in ts:
                 a = float(full(t)); b = sum(float(p(t)) for p in parts)
-                if not core.close(a, b, scale, 1e-8):
+                if not core.close(a, b, scale, tol):
                     out.spec_fail(dict(op='superposition', symptom='sum_of_single_source_responses_differs', **f),
                                   f'{kind} of {name} at t={t}: full response {a}, sum over the sources alone {b}', P,
                                   impl=dict(full=a, parts=[float(p(t)) for p in parts]), case=case)
@@ -447,11 +483,10 @@ def check_two_sided(ctx, out, comps, w_max):
     if drv is not None:
         m = drv.call('two_sided', ws=[core.q(w) for w in ws], X=[core.qc(x) for x in X])
         out.traces_validated += 1
-        mw = m['as_written']
-        if 'err' in mw:
-            if impl != ('err', mw['err']): out.disagree('two_sided', P, impl[:2], mw)
-        elif impl[0] == 'err' or [Fraction(w) for w in mw['ok']] != [Fraction(w) for w in impl[1]]:
-            out.disagree('two_sided', P, impl[:2], mw)
+        mw = [float(Fraction(w)) for w in m['w']]; mX = [core.cfloat(x) for x in m['X']]
+        if impl[0] == 'err' or impl[1] != mw or len(impl[2]) != len(mX) or \
+                not all(core.close(a, b, 0.0, 1e-12) for a, b in zip(impl[2], mX)):
+            out.disagree('two_sided', P, impl, dict(w=mw, X=mX))
     if not ws: return
     out.nontrivial(('two_sided', len(ws), ws[0] == 0))
     if impl[0] == 'err':
@@ -526,6 +561,7 @@ def run_solution_case(ctx, out, comps, w_max, rng):
     check_two_sided(ctx, out, comps, w_max)
 
 EPS = 2.0 ** -20      # < w_resolution, exactly representable next to the dyadic pool
+D1, D2 = 7 / 8192, 9 / 8192     # 1, 1+D1, 1+D2: D1 and D2-D1 are within the resolution, D2 is not — a chain
 
 CORPUS = [
     # DESIGN §6: sources at w and w + 1e-9
@@ -534,6 +570,10 @@ CORPUS = [
     # a sinusoidal source on a harmonic of a periodic one: 3·0.1 ≠ 0.3 in binary64
     ([dict(kind='Vper', id='Vp', nodes=['1', '0'], v=1.0, w=0.1, wave='rect'), dict(kind='Vac', id='V2', nodes=['2', '1'], v=1.0, w=0.3),
       dict(kind='R', id='R', nodes=['2', '0'], v=1.0), dict(kind='gnd', id='gnd', nodes=['0'])], 0.45),
+    # chain: 1.0, 1.0009, 1.0011 — the middle source lies within the resolution of both kept frequencies
+    ([dict(kind='Vac', id='V1', nodes=['1', '0'], v=1.0, w=1.0), dict(kind='Vac', id='V2', nodes=['2', '1'], v=1.0, w=1.0009),
+      dict(kind='Vac', id='V3', nodes=['3', '2'], v=1.0, w=1.0011), dict(kind='R', id='R', nodes=['3', '0'], v=1.0),
+      dict(kind='gnd', id='gnd', nodes=['0'])], 10.0),
     # bit-equal coincidence: merged
     ([dict(kind='Vper', id='Vp', nodes=['1', '0'], v=1.0, w=2.0, wave='saw', phi=1.0), dict(kind='Iac', id='I2', nodes=['2', '0'], v=1.0, w=4.0),
       dict(kind='R', id='R1', nodes=['2', '1'], v=1.0), dict(kind='R', id='R2', nodes=['2', '0'], v=2.0), dict(kind='C', id='C', nodes=['2', '0'], v=0.5),
@@ -557,7 +597,8 @@ def run(ctx, out):
         run_solution_case(ctx, out, comps, w_max, rng)
     # frequency lists: many, cheap
     for k in range(300 if ctx.quick else 5000):
-        pool = DYADIC_W + ([1.0 + EPS, 2.0 + EPS, 3.0 - EPS] if rng.random() < 0.3 else [])
+        r = rng.random()
+        pool = DYADIC_W + ([1.0 + EPS, 2.0 + EPS, 3.0 - EPS] if r < 0.3 else [1.0 + D1, 1.0 + D2, 1.0 + D1, 1.0 + D2] if r < 0.4 else [])
         comps = random_circuit(rng, w_pool=pool)
         if rng.random() < 0.05:
             for c in comps:
@@ -575,8 +616,8 @@ def run(ctx, out):
     n_sol = 40 if ctx.quick else 800
     for k in range(n_sol):
         if ctx.time_left() < 20: out.notes.append(f'stopped after {k} solution cases (budget)'); break
-        near = rng.random() < 0.2
-        pool = DYADIC_W + ([1.0 + EPS, 2.0 + EPS] if near else [])
+        r = rng.random()
+        pool = DYADIC_W + ([1.0 + EPS, 2.0 + EPS] if r < 0.2 else [1.0 + D1, 1.0 + D2, 1.0 + D1, 1.0 + D2, 1.0] if r < 0.3 else [])
         comps = random_circuit(rng, w_pool=pool)
         run_solution_case(ctx, out, comps, rng.choice([0.0, 2.0, 4.5, 6.0]), rng)
     # reconstruction of periodic waveforms
